@@ -1,4 +1,5 @@
 import BtcModel.Driver.Wire
+import BtcModel.Driver.Enc
 /-!
 `btcdriver [flag ...]` — line protocol: one operation per input line (space separated tokens),
 one result line per operation: `spec | impl [| extra]`, `bad-op` for an unknown or malformed
@@ -7,7 +8,7 @@ operation.  The flags name the deviations (`Btc.Dev`) that are switched on in `i
 open Btc Btc.Driver
 
 def dispatch (D : Dev) (toks : List String) : String :=
-  match handleWire D toks with
+  match (handleWire D toks <|> handleEnc D toks) with
   | some r => r
   | none => "bad-op"
 
